@@ -31,6 +31,7 @@ type RunSpec struct {
 	Bounds     map[string]int64 `json:"bounds"`
 	Solver     string           `json:"solver"`
 	Sched      bool             `json:"sched"`
+	Preempt    *int             `json:"preempt"`
 	Unwind     int              `json:"unwind"`
 	MaxPaths   int              `json:"max_paths"`
 	MaxSteps   int              `json:"max_steps"`
@@ -211,6 +212,10 @@ func checkMain(args []string) int {
 		}
 		opts := RunOpts{Entry: rs.Entry, Bounds: rs.Bounds, Solver: rs.Solver, Sched: rs.Sched, Unwind: rs.Unwind,
 			MaxPaths: rs.MaxPaths, MaxSteps: rs.MaxSteps, QueryMs: rs.QueryMs, SampleEvery: 1, AllowPanic: rs.AllowPanic, MaxViol: 2000}
+		opts.Preempt = -1
+		if rs.Preempt != nil {
+			opts.Preempt = *rs.Preempt
+		}
 		if rs.TimeoutS > 0 {
 			opts.Deadline = time.Now().Add(time.Duration(rs.TimeoutS) * time.Second)
 		}
